@@ -42,6 +42,7 @@ type c04opts struct {
 	defaultMap                               bool // user namespace with the launcher's default id mapping (no UID/GIDMappings given)
 	ptrace, stop                             bool
 	workdir, names                           bool
+	hostName, domName                        string // family "names": the names to request (default c04host / c04domain)
 }
 
 func (o c04opts) String() string {
@@ -124,6 +125,9 @@ func c04launch(o c04opts) (rep *report, ns map[string]string, launchErr error, h
 	}
 	if o.names {
 		r.HostName, r.DomainName = "c04host", "c04domain"
+		if o.hostName != "" {
+			r.HostName, r.DomainName = o.hostName, o.domName
+		}
 	}
 	if o.cred {
 		r.Credential = &syscall.Credential{Uid: 1234, Gid: 2345, Groups: []uint32{3456, 4567}}
@@ -197,7 +201,7 @@ func init() {
 			Level: "exploration",
 			Rule: "all subsets of {credential, drop-caps, no-new-privs, seccomp, sync callback, unshare-cgroup-after-sync} × namespace mode {none, user, pid+mnt+uts+ipc+net, user+those, those+pivot root, user+those+pivot root} × " +
 				"{no tracing, ptrace (harness attaches and detaches), stop-before-seccomp} (quick: tracing modes only without namespaces) with work dir and host/domain name set whenever the namespaces allow; " +
-				"the launched probe reports caps, securebits, no_new_privs, seccomp mode, ids, groups, session, cwd, uname; namespace identities are read from the host side. " +
+				"plus host and domain names of every length combination over {1, 7, 64, 65} bytes in a new UTS namespace (names the kernel takes must be what the program sees, a name it refuses must refuse the launch); the launched probe reports caps, securebits, no_new_privs, seccomp mode, ids, groups, session, cwd, uname; namespace identities are read from the host side. " +
 				"second launcher: container.Builder + Execve over {credential generator none / default ids / custom ids, custom host+domain name, custom work dir, seccomp filter, unshare-cgroup-before-exec, sync after exec, clone into a cgroup v2 directory, custom clone flags without a net namespace}. non-trivial: at least one option set; distinct = (option set, observed state vector)",
 			Bound:       map[string]any{"clone_into_cgroup": "exercised through the container launcher with a directory of the controller-less cgroup2 hierarchy at /sys/fs/cgroup/unified", "ctty": "not exercised"},
 			Assumptions: []string{"reference function options → state written from the property text (cmd/vcheck/c04.go)", "combinations the kernel rejects surface as a launch error and are recorded, not judged"},
@@ -213,8 +217,12 @@ func init() {
 		spec.Fini = cleanupTmp
 		myNS := nsOf("self")
 		spec.Body = func(x *mc.X) {
-			if x.Choose(2, "launcher") == 1 {
+			switch x.Choose(3, "launcher") {
+			case 1:
 				c04container(x, myNS)
+				return
+			case 2:
+				c04names(x)
 				return
 			}
 			var o c04opts
@@ -360,6 +368,45 @@ func harnessGroups() []int {
 
 // c04container: the same question through container.Builder + Execve, which fix some options (capabilities dropped,
 // no_new_privs, own session) and derive others from the builder (credentials, names, work dir, namespaces).
+// family "names": host and domain names of every length combination over {1, 7, 64 (the longest the kernel takes), 65}
+// in a new UTS namespace. Names the kernel takes must be exactly what the program sees; a name it refuses must refuse the
+// launch — a program that starts under another name although Start reported success is a silently skipped step.
+func c04names(x *mc.X) {
+	lens := []int{1, 7, 64, 65}
+	hl := lens[x.Choose(len(lens), "host-name-length")]
+	dl := lens[x.Choose(len(lens), "domain-name-length")]
+	o := c04opts{nsgroup: true, names: true, newuser: x.Bool("newuser"), sync: x.Bool("sync")}
+	o.hostName, o.domName = strings.Repeat("h", hl), strings.Repeat("d", dl)
+	x.Note("options", fmt.Sprintf("%s, host name of %d bytes, domain name of %d bytes", o.String(), hl, dl))
+	x.OnHang("C04/launch-hangs", "launch with names did not complete within the horizon")
+	if x.Dry() {
+		return
+	}
+	rep, _, lerr, herr := c04launch(o)
+	legal := hl <= 64 && dl <= 64
+	switch {
+	case lerr != nil:
+		x.Note("launch-error", lerr.Error())
+		x.Outcome("names:refused")
+		x.Distinct(fmt.Sprint("names", hl, dl, o.newuser, o.sync, "refused"))
+		if legal {
+			x.Failf("C04/names/legal-names-refused", "host name of %d bytes and domain name of %d bytes: %v", hl, dl, lerr)
+		}
+	case herr != nil:
+		x.Failf("C04/no-report", "names %d/%d: %v", hl, dl, herr)
+	default:
+		x.Outcome("names:started")
+		x.Distinct(fmt.Sprint("names", hl, dl, o.newuser, o.sync, rep.Host == o.hostName, rep.Domain == o.domName))
+		if rep.Host != o.hostName || rep.Domain != o.domName {
+			key := "C04/uname"
+			if !legal {
+				key = "C04/names/name-step-silently-skipped"
+			}
+			x.Failf(key, "requested a host name of %d bytes and a domain name of %d bytes; Start reported success and the program sees host %q (%d bytes) domain %q (%d bytes)", hl, dl, rep.Host, len(rep.Host), rep.Domain, len(rep.Domain))
+		}
+	}
+}
+
 func c04container(x *mc.X, myNS map[string]string) {
 	cred := x.Choose(3, "credential") // 0 none, 1 default container ids, 2 custom ids
 	names := x.Bool("custom-host-domain")
